@@ -16,7 +16,7 @@ Definition with_dict d s := {| dict := d; classes := classes s; sty := sty s |}.
 Definition with_classes c s := {| dict := dict s; classes := c; sty := sty s |}.
 Definition with_sty y s := {| dict := dict s; classes := classes s; sty := y |}.
 
-Inductive exc := EKeyError | EAttributeError | EUnsupported.
+Inductive exc := EKeyError | EAttributeError | EUnsupported | EIndexSize.
 Inductive res := ROk | ROkVal (v : option string) | RExc (e : exc).
 
 (* ---------- style ---------- *)
@@ -209,7 +209,9 @@ Definition dot_assign (tag name : string) (v : option string) (isbool : option b
     if smem name special_validation_names then (s, RExc EUnsupported)
     else
       let n := renamed name in
-      if is_binary_string n then (s, RExc EUnsupported)
+      if is_binary_string n then
+        (* self.setAttribute(name, value): the store converts the value to "true" / "false" *)
+        setAttribute n (match isbool with Some b => Some (if b then "true" else "false") | None => v end) s
       else if is_binary n then
         let truth := match isbool with Some b => b | None => match v with Some x => nonempty x | None => false end end in
         if truth then setAttribute n (Some "") s else (removeAttribute n s, ROk)
